@@ -25,33 +25,44 @@ Definition cr_step (stack : list scope) (acc : pgres unit) (r : node) : pgres un
 Lemma cr_fold_err stack refs e0 : fold_left (cr_step stack) refs (PErr e0) = PErr e0.
 Proof. induction refs as [|x xs IH]; simpl; [reflexivity|exact IH]. Qed.
 
+(** the column references that ARE result targets *)
+Definition refs_of (targets : list node) : list node :=
+  flat_map (fun t => if is_kind "ColumnRef" (kid "Val" t) then [kid "Val" t] else []) targets.
+
 (** if every plain reference of the result list resolves, so do the checks of
     the list; if one does not, the row is an error as well *)
 Lemma check_refs_row sc targets :
-  Forall (simple_target sc) targets ->
-  match check_refs [sc] (map (kid "Val") targets) with
+  Forall (target_ok sc) targets ->
+  match check_refs [sc] (refs_of targets) with
   | POk _ => True
   | PErr _ => exists e0, row_of sc [sc] targets = PErr e0
   end.
 Proof.
   unfold check_refs, row_of. change (fun acc r => pdo _ <- acc; if is_star r then POk tt else pdo _ <- resolve_ref [sc] r; POk tt)
     with (cr_step [sc]). intros Hall.
-  assert (G : forall row, match fold_left (cr_step [sc]) (map (kid "Val") targets) (POk tt) with
+  assert (G : forall row, match fold_left (cr_step [sc]) (refs_of targets) (POk tt) with
                           | POk _ => True
                           | PErr _ => exists e0, fold_left (row_step sc [sc]) targets (POk row) = PErr e0
                           end).
-  { induction Hall as [|t ts Hst _ IH]; intros row; cbn [map fold_left]; [exact I|].
-    assert (Hv : is_kind "ColumnRef" (kid "Val" t) = true) by (destruct Hst; unfold is_kind; rewrite H0; reflexivity).
-    unfold cr_step at 2. unfold row_step at 2. cbn [pbind]. rewrite Hv.
-    destruct (is_star (kid "Val" t)) eqn:Es.
-    - destruct Hst as [Hk Hvk Hstar Hf Hn | q Hk Hvk Hstar Hf Hq Hn Hin | cn Hk Hvk Hstar Hf | q cn Hk Hvk Hstar Hf Hq]; try congruence.
-      + rewrite Hf. apply IH.
-      + rewrite Hf.
-        destruct (filter (fun it => String.eqb (si_name it) q) sc) as [|it its] eqn:Ef; [exfalso; exact (in_names_filter sc q Hin Ef)|].
-        apply IH.
-    - destruct (resolve_ref [sc] (kid "Val" t)) as [x|e1]; cbn [pbind].
-      + apply IH.
-      + rewrite cr_fold_err, row_fold_err. eauto. }
+  { induction Hall as [|t ts Hst _ IH]; intros row; [exact I|].
+    unfold refs_of. cbn [flat_map fold_left]. fold (refs_of ts).
+    destruct Hst as [Hst|Hk Hop].
+    - assert (Hv : is_kind "ColumnRef" (kid "Val" t) = true) by (destruct Hst; unfold is_kind; rewrite H0; reflexivity).
+      rewrite Hv. cbn [app fold_left].
+      unfold cr_step at 2. unfold row_step at 2. cbn [pbind]. rewrite Hv.
+      destruct (is_star (kid "Val" t)) eqn:Es.
+      + destruct Hst as [Hk Hvk Hstar Hf Hn | q Hk Hvk Hstar Hf Hq Hn Hin | cn Hk Hvk Hstar Hf | q cn Hk Hvk Hstar Hf Hq]; try congruence.
+        * rewrite Hf. apply IH.
+        * rewrite Hf.
+          destruct (filter (fun it => String.eqb (si_name it) q) sc) as [|it its] eqn:Ef; [exfalso; exact (in_names_filter sc q Hin Ef)|].
+          apply IH.
+      + destruct (resolve_ref [sc] (kid "Val" t)) as [x|e1]; cbn [pbind].
+        * apply IH.
+        * rewrite cr_fold_err, row_fold_err. eauto.
+    - assert (Hnc : is_kind "ColumnRef" (kid "Val" t) = false).
+      { unfold opaque_kind in Hop. cbn [mem_str] in Hop. apply Bool.negb_true_iff in Hop.
+        apply Bool.orb_false_iff in Hop. destruct Hop as [Hop _]. unfold is_kind. exact Hop. }
+      rewrite Hnc. cbn [app]. unfold row_step at 2. cbn [pbind]. rewrite Hnc. apply IH. }
   apply (G []).
 Qed.
 
@@ -103,7 +114,7 @@ Qed.
 
 
 Section SimpleSelect.
-  Variables (e : env) (strict : bool) (stmt : node) (targets rvs : list node).
+  Variables (e : env) (strict deep : bool) (stmt : node) (targets rvs : list node).
   Hypothesis Hkind : kind_of stmt = "SelectStmt".
   Hypothesis Hwith : kid "WithClause" stmt = Nil.
   Hypothesis Htl : kid "TargetList" stmt = NList targets.
@@ -117,14 +128,15 @@ Section SimpleSelect.
   (* strict: no column reference outside the result list; otherwise: none that is paired with a parameter *)
   Hypothesis Hothers : (if strict then level_refs (NList others) else paired_refs (NList others)) = [].
   Hypothesis Hsub : level_subselects (NList (others ++ map (kid "Val") targets ++ [])) = [].
-  Hypothesis Hvals : level_refs (NList (map (kid "Val") targets)) = map (kid "Val") targets.
+  (* deep: no column reference hidden inside a result expression; otherwise: only direct ones are looked at *)
+  Hypothesis Hvals : (if deep then level_refs (NList (map (kid "Val") targets)) else direct_refs targets) = refs_of targets.
   Hypothesis Hnd : NoDup (map visible_name rvs).
   Hypothesis Hshape : forall sc, spec_scope (env_cat e) rvs = POk sc ->
-    Forall (fun it => NoDup (map sc_name (si_cols it))) sc /\ Forall (simple_target sc) targets.
+    Forall (fun it => NoDup (map sc_name (si_cols it))) sc /\ Forall (target_ok sc) targets.
 
   Theorem simple_select_refines_t f g :
-    match describe (env_cat e) strict true (S (S f)) [] [] stmt, output_columns (S g) e [] stmt with
-    | POk row, Ok cols => Forall2 col_rel row cols
+    match describe (env_cat e) strict deep (S (S f)) [] [] stmt, output_columns (S g) e [] stmt with
+    | POk row, Ok cols => Forall2 row_rel row cols
     | PErr _, Err _ => True
     | _, _ => False
     end.
@@ -183,32 +195,32 @@ Section SimpleSelect.
     destruct (Hshape sc eq_refl) as [Hcols Hall].
     pose proof (level_refines_t e sc tables targets Hrel ltac:(rewrite Hnames; exact Hnd) Hcols Hall) as Hlev.
     pose proof (check_refs_row sc targets Hall) as Hchk.
-    destruct (check_refs [sc] (map (kid "Val") targets)) as [[]|e2]; cbn [pbind].
+    destruct (check_refs [sc] (refs_of targets)) as [[]|e2]; cbn [pbind].
     - exact Hlev.
     - destruct Hchk as [e0 He0]. rewrite He0 in Hlev.
       destruct (targets_columns e tables targets); try contradiction; exact I.
   Qed.
 
-  (** names only *)
-  Theorem simple_select_refines f g :
-    match describe (env_cat e) strict true (S (S f)) [] [] stmt, output_columns (S g) e [] stmt with
-    | POk row, Ok cols => map sc_name row = map qc_name cols
+  (** arity *)
+  Theorem simple_select_arity f g :
+    match describe (env_cat e) strict deep (S (S f)) [] [] stmt, output_columns (S g) e [] stmt with
+    | POk row, Ok cols => List.length row = List.length cols
     | PErr _, Err _ => True
     | _, _ => False
     end.
   Proof.
     pose proof (simple_select_refines_t f g) as H.
-    destruct (describe (env_cat e) strict true (S (S f)) [] [] stmt); destruct (output_columns (S g) e [] stmt); auto.
-    apply Forall2_names, H.
+    destruct (describe (env_cat e) strict deep (S (S f)) [] [] stmt); destruct (output_columns (S g) e [] stmt); auto.
+    clear -H. induction H; simpl; congruence.
   Qed.
 
   (** acceptance only (C10) *)
   Theorem simple_select_decision f g :
-    (exists row, describe (env_cat e) strict true (S (S f)) [] [] stmt = POk row)
+    (exists row, describe (env_cat e) strict deep (S (S f)) [] [] stmt = POk row)
     <-> (exists cols, output_columns (S g) e [] stmt = Ok cols).
   Proof.
     pose proof (simple_select_refines_t f g) as H.
-    destruct (describe (env_cat e) strict true (S (S f)) [] [] stmt) as [row|e1]; destruct (output_columns (S g) e [] stmt) as [cols|m|m];
+    destruct (describe (env_cat e) strict deep (S (S f)) [] [] stmt) as [row|e1]; destruct (output_columns (S g) e [] stmt) as [cols|m|m];
       try contradiction; split; intros [x Hx]; try discriminate; eauto.
   Qed.
 End SimpleSelect.
